@@ -2,7 +2,7 @@
 import importlib, os, sys, traceback
 sys.path.insert(0, os.path.dirname(os.path.abspath(__file__)))
 
-GENERATORS = ["gen_iupac", "gen_units", "gen_grammar"]          # module names harness/gen_<x>.py with a generate() function
+GENERATORS = ["gen_iupac", "gen_units", "gen_grammar", "gen_globals", "gen_reader"]          # module names harness/gen_<x>.py with a generate() function
 
 def generate(names, strict=True):
     """returns {name: error string or None}"""
